@@ -8,6 +8,8 @@ CONSTANTS
     Ks = {2}
     MaxIters = {1, 2, 3}
     LCM = 60
+    ShowSwap = FALSE
+    RowSum = 0
     ShowEmpty = FALSE
     Replay = TRUE
 SPECIFICATION Spec
